@@ -43,10 +43,39 @@ fn small_model(rng: &mut Rng) -> Model {
     assign_random_shapes(&mut m, rng, 0.6);
     m.start_pos = rng.below(m.nts.len() + 1);
     m.term_pos = rng.below(m.nts.len() + 1);
+    // (nothing emitted for these models is compiled: every spelling of a name is in the domain)
+    match rng.below(12) {
+        0 => prelude_names(&mut m, rng),
+        1 | 2 => shuffle_names(&mut m, rng),
+        _ => {}
+    }
     m
 }
 
 /// A hostile single-line attribute with balanced brackets carrying a unique marker.
+/// Attributes as users write them: derive lists, cfg_attr, doc strings, serde / repr / allow ..., with
+/// lengths crossing the widths formatters care about (80, 100, 120 columns).
+pub fn realistic_attr(rng: &mut Rng, marker: &str) -> String {
+    const TRAITS: &[&str] = &["Clone", "Debug", "PartialEq", "Eq", "PartialOrd", "Ord", "Hash", "Default", "Copy", "serde::Serialize", "serde::Deserialize", "a::b::C", "X"];
+    let target = *rng.pick(&[10usize, 40, 70, 79, 80, 81, 99, 100, 101, 119, 120, 121, 200, 400]);
+    match rng.below(6) {
+        0 | 1 => {
+            // a clean derive list; the marker is one of the paths
+            let mut paths: Vec<String> = vec![marker.to_string()];
+            while paths.join(", ").len() + 11 < target {
+                paths.push(rng.pick_str(TRAITS).to_string());
+            }
+            rng.shuffle(&mut paths);
+            let sep = rng.pick_str(&[", ", ",", ", ", " , "]);
+            format!("#[derive({}{})]", paths.join(sep), rng.pick_str(&["", "", ","]))
+        }
+        2 => format!("#[doc = \"{marker} {}\"]", "lorem ipsum ".repeat(target / 12)),
+        3 => format!("#[cfg_attr(feature = \"{marker}\", derive({}))]", (0..target / 12 + 1).map(|_| rng.pick_str(TRAITS)).collect::<Vec<_>>().join(", ")),
+        4 => format!("#[serde(rename_all = \"{marker}\", tag = \"{}\")]", "t".repeat(target / 2)),
+        _ => format!("#[allow({marker}, {})]", (0..target / 14 + 1).map(|i| format!("clippy::lint_{i}")).collect::<Vec<_>>().join(", ")),
+    }
+}
+
 pub fn hostile_attr(rng: &mut Rng, marker: &str) -> String {
     const PLAIN: &[&str] = &[
         "a", " ", "=", "\"", "'", "//", "#", "$", ",", "\t", "\r", "\u{a0}", "\u{2028}", "é", "中", "𝄞", "\\", "/", ":", ";", "!", "#[", "derive", "Debug", "<", ">", "_", "0", "\u{feff}", "|",
@@ -255,6 +284,54 @@ fn header_like_text(rng: &mut Rng) -> String {
         "//", "// @sha256 ", "//@sha256 ", "// @sha256", "// @sha256 // @sha256 ", " // @sha256 ", "abc", "0123abcdef", "\n", "\r\n", "\r", " ", "// x", "#![allow(dead_code)]", "/", "é", "\u{2028}", "// @sha256 deadbeef", "\t", "// @SHA256 ", "/// @sha256 ", "",
         "// @sha256 abc  ", "// @sha256 abc\t", "// @sha2560", "//! x", "// @sha256 abc\r", "// @sha256  two", "//\t@sha256 x", "// @sha256 é", "\u{feff}// @sha256 x", "// @sha256", "//", "// ",
     ];
+    if rng.chance(0.2) {
+        // a REAL header (the first lines of a module emitted just now) with per-line terminators
+        // varied and 0-2 single-character edits anywhere in it
+        thread_local! { static REAL: String = {
+            match kside::generate("start S\nstruct S\nterminal T {}\n", 1_000_000).0 {
+                GenOutcome::Ok(t) => t.split_inclusive('\n').take(9).collect(),
+                _ => String::new(),
+            }
+        }; }
+        let real = REAL.with(|r| r.clone());
+        if !real.is_empty() {
+            let mut out = String::new();
+            let crlf_mode = rng.below(4);
+            for line in real.split_inclusive('\n') {
+                let body = line.trim_end_matches('\n');
+                out.push_str(body);
+                let crlf = match crlf_mode {
+                    0 => false,
+                    1 => true,
+                    2 => body.contains("@sha256"),
+                    _ => rng.chance(0.3),
+                };
+                out.push_str(if crlf { "\r\n" } else { "\n" });
+            }
+            for _ in 0..*rng.pick(&[0usize, 0, 1, 1, 2]) {
+                let cuts: Vec<usize> = out.char_indices().map(|(i, _)| i).collect();
+                let at = *rng.pick(&cuts);
+                match rng.below(3) {
+                    0 => out.insert_str(at, rng.pick_str(&["\r", "\n", " ", "/", "@", "a", "\t", "é", "// @sha256 q\n", "\u{feff}"])),
+                    1 => {
+                        let c = out[at..].chars().next().unwrap();
+                        out.replace_range(at..at + c.len_utf8(), "");
+                    }
+                    _ => {
+                        let c = out[at..].chars().next().unwrap();
+                        out.replace_range(at..at + c.len_utf8(), rng.pick_str(&["\r", " ", "x", "/"]));
+                    }
+                }
+            }
+            if rng.chance(0.2) {
+                out.truncate(rng.below(out.len() + 1));
+                while !out.is_char_boundary(out.len()) {
+                    out.pop();
+                }
+            }
+            return out;
+        }
+    }
     let mut s = String::new();
     if rng.chance(0.12) {
         // a long banner in front: the hash line far down the comment block (line counts and byte
@@ -453,6 +530,8 @@ impl Text {
                     *counter += 1;
                     if rng.chance(0.06) {
                         hostile_attr(rng, "")
+                    } else if rng.chance(0.2) {
+                        realistic_attr(rng, &format!("kvm{}x{}x", n, counter))
                     } else {
                         hostile_attr(rng, &format!("kvm{}x{}x", n, counter))
                     }
